@@ -34,11 +34,11 @@ const (
 )
 
 type Msg struct {
-	Method string `json:"method"`
-	Meta   string `json:"meta,omitempty"`   // "", full, nocaps, badcaps, badinfo, noinfo, newer, nonstring, legacyver
-	Init   string `json:"init,omitempty"`   // initialize params variant: ok:<version> | null | absent | wrongtype | array
-	Level  string `json:"level,omitempty"`  // logging/setLevel
-	CancelID int  `json:"cancel_id,omitempty"`
+	Method   string `json:"method"`
+	Meta     string `json:"meta,omitempty"`  // "", full, nocaps, badcaps, badinfo, noinfo, newer, nonstring, legacyver
+	Init     string `json:"init,omitempty"`  // initialize params variant: ok:<version> | null | absent | wrongtype | array
+	Level    string `json:"level,omitempty"` // logging/setLevel
+	CancelID int    `json:"cancel_id,omitempty"`
 }
 
 type Script struct {
@@ -156,8 +156,8 @@ func run(s Script) (res vt.Result) {
 }
 
 type response struct {
-	ID     *int             `json:"id"`
-	Result json.RawMessage  `json:"result"`
+	ID     *int            `json:"id"`
+	Result json.RawMessage `json:"result"`
 	Error  *struct {
 		Code    int             `json:"code"`
 		Message string          `json:"message"`
